@@ -24,6 +24,7 @@ import (
 	"sort"
 	"strconv"
 	"strings"
+	"time"
 )
 
 type Entry struct {
@@ -660,6 +661,7 @@ type Served struct {
 	Body    []byte
 	Panic   bool
 	PanicIn string // function in which the panic was raised (first non-runtime frame)
+	Hang    bool   // the handler did not return within ServeTimeout
 }
 
 // PanicOrigin returns the function that raised the panic: the first frame below the runtime's panic machinery.
@@ -684,17 +686,31 @@ func PanicOrigin(stack string) string {
 	return "unknown"
 }
 
+// ServeTimeout bounds one request: a handler that does not return is reported as status 0 (no response), which no
+// outcome of any specification explains; the recorder goes on with the next case.
+var ServeTimeout = 120 * time.Second
+
 func Serve(h http.Handler, req *http.Request) (s Served) {
 	rw := httptest.NewRecorder()
-	func() {
+	done := make(chan struct{})
+	var panicked bool
+	var panicIn string
+	go func() {
+		defer close(done)
 		defer func() {
 			if e := recover(); e != nil {
-				s.Panic = true
-				s.PanicIn = PanicOrigin(string(debug.Stack()))
+				panicked = true
+				panicIn = PanicOrigin(string(debug.Stack()))
 			}
 		}()
 		h.ServeHTTP(rw, req)
 	}()
+	select {
+	case <-done:
+	case <-time.After(ServeTimeout):
+		return Served{Code: 0, Header: http.Header{}, Hang: true}
+	}
+	s.Panic, s.PanicIn = panicked, panicIn
 	s.Code = rw.Code
 	s.Header = rw.Header()
 	s.Body = rw.Body.Bytes()
